@@ -28,4 +28,5 @@ INVARIANT AsIsAlwaysFallsBack
 INVARIANT FixRemovesDeviation
 INVARIANT BetRoundTrip
 INVARIANT CrcSectorAccepted
+INVARIANT DistinctKeys
 CHECK_DEADLOCK FALSE
